@@ -111,7 +111,12 @@ def gen_zones(rng, h, w, nonfinite=True):
 
 
 def gen_values(rng, n, kind=None, nonfinite=True):
-    kind = kind or rng.choice(["digits", "digits", "ints", "dyadic"])
+    kind = kind or rng.choice(["digits", "digits", "ints", "dyadic", "narrow-int"])
+    if kind == "narrow-int":      # 8/16-bit integers near the top of their range: squares and sums leave the dtype
+        dtype = rng.choice(["uint8", "int8", "uint16", "int16"])
+        lo, hi = {"uint8": (0, 255), "int8": (-128, 127), "uint16": (0, 65535), "int16": (-32768, 32767)}[dtype]
+        v = [float(rng.choice([hi, hi - 1, hi - rng.randint(0, hi // 4), lo, rng.randint(lo, hi)])) for _ in range(n)]
+        return v, dtype, kind, []
     if kind == "digits":          # few distinct values: good categories
         alphabet = rng.sample([0, 1, 2, 3, 5, 8, 10, 20, 30], rng.randint(1, 5))
         v = [rng.choice(alphabet) for _ in range(n)]
